@@ -126,6 +126,10 @@ type MsgRec struct {
 	Outcome string
 	TaskId  string
 	Counter int
+	// http transport: the request the production worker handed to the (simulated) network
+	Reached     bool
+	SentURL     string
+	SentHeaders map[string]string
 }
 
 // SendRec is one sender submission as seen by the shell.
@@ -199,6 +203,10 @@ type simPlugin struct {
 	typ  string
 	sim  *Sim
 	poll *ppoll.Detached
+	// one production http worker per server life, as in production (state it keeps between
+	// messages is part of what is simulated)
+	hw *phttp.HttpWorker
+	rt *simRoundTripper
 }
 
 func (p *simPlugin) String() string           { return "sim:" + p.typ }
@@ -223,6 +231,10 @@ func (p *simPlugin) Enqueue(m *aio.Message) bool {
 	if !reached {
 		rec.Outcome = "undeliverable"
 	}
+	rec.Reached = reached
+	if p.typ == "http" && reached {
+		rec.SentURL, rec.SentHeaders = p.rt.url, p.rt.headers
+	}
 	s.Stats["handoff."+rec.Outcome]++
 	s.onMessage(rec)
 	m.Done(ok, err)
@@ -232,10 +244,17 @@ func (p *simPlugin) Enqueue(m *aio.Message) bool {
 type simRoundTripper struct {
 	outcome string
 	reached bool
+	url     string
+	headers map[string]string
 }
 
 func (t *simRoundTripper) RoundTrip(req *http.Request) (*http.Response, error) {
 	t.reached = true
+	t.url = req.URL.String()
+	t.headers = map[string]string{}
+	for k, v := range req.Header {
+		t.headers[k] = strings.Join(v, ",")
+	}
 	switch t.outcome {
 	case "error":
 		return nil, errors.New("simulated transport error")
@@ -248,9 +267,13 @@ func (t *simRoundTripper) RoundTrip(req *http.Request) (*http.Response, error) {
 func (p *simPlugin) deliver(m *aio.Message, out string) (ok bool, err error, reached bool) {
 	switch p.typ {
 	case "http":
-		rt := &simRoundTripper{outcome: out}
-		ok, err = phttp.NewWorker(&http.Client{Transport: rt}).Process(m.Data, m.Body)
-		return ok, err, rt.reached
+		if p.hw == nil {
+			p.rt = &simRoundTripper{}
+			p.hw = phttp.NewWorker(&http.Client{Transport: p.rt})
+		}
+		p.rt.outcome, p.rt.reached, p.rt.url, p.rt.headers = out, false, "", nil
+		ok, err = p.hw.Process(m.Data, m.Body)
+		return ok, err, p.rt.reached
 	case "poll":
 		if p.poll == nil {
 			p.poll = ppoll.NewDetached(p.sim.metrics, &ppoll.Config{Size: 1, MaxConnections: 1})
@@ -309,6 +332,8 @@ type Sim struct {
 	// hand-off outcomes used, cyclically, by sender work inside a settle step that carries them
 	autoOutcomes []string
 	autoIdx      int
+	image        string // crash image taken at a fault point, used by the crash that follows
+	lives        int
 	innerDt      int64 // clock advance of the ticks inside an automatic round
 	firstDt      int64 // clock advance of the first round of a settle step (0: one signal timeout)
 	curCycle   string
@@ -371,10 +396,13 @@ func NewSim(cfg Config, opts Options) (*Sim, error) {
 	if err != nil {
 		return nil, err
 	}
+	if err := os.MkdirAll(filepath.Join(dir, "life0"), 0o755); err != nil {
+		return nil, err
+	}
 	s := &Sim{
 		Cfg:      cfg,
 		Dir:      dir,
-		Path:     filepath.Join(dir, "resonate.db"),
+		Path:     filepath.Join(dir, "life0", "resonate.db"),
 		Now:      cfg.Epoch,
 		reqByTag: map[string]*ReqRec{},
 		cursors:  map[int]*t_api.Request{},
@@ -877,6 +905,13 @@ func (s *Sim) workStore(st *Step, take []*aioSQE) {
 		} else if crash == "before" {
 			s.ctl.Next = &faultdb.Fault{Where: "commit", Err: "ioerr"}
 		}
+		if crash == "mid" || crash == "before" {
+			s.ctl.OnFire = func() {
+				if s.image == "" {
+					s.takeImage()
+				}
+			}
+		}
 		s.curBatch = recs
 		before := s.Last
 		ev := s.nextEv()
@@ -886,6 +921,7 @@ func (s *Sim) workStore(st *Step, take []*aioSQE) {
 		cqes := s.store.Process(process)
 		s.curBatch = nil
 		s.ctl.Next = nil
+		s.ctl.OnFire = nil
 		committed := recs[0].Committed
 		wrote := recs[0].Wrote
 		for j, cqe := range cqes {
@@ -1040,6 +1076,35 @@ func (s *Sim) stepCrash() bool {
 	return true
 }
 
+// takeImage copies the database files as they are now into a fresh directory: the crash image
+// the next server life starts from.
+func (s *Sim) takeImage() {
+	src := filepath.Dir(s.Path)
+	s.lives++
+	dst := filepath.Join(s.Dir, fmt.Sprintf("life%d", s.lives))
+	if err := os.MkdirAll(dst, 0o755); err != nil {
+		panic("harness: crash image: " + err.Error())
+	}
+	ents, err := os.ReadDir(src)
+	if err != nil {
+		panic("harness: crash image: " + err.Error())
+	}
+	for _, e := range ents {
+		if e.IsDir() {
+			continue
+		}
+		b, err := os.ReadFile(filepath.Join(src, e.Name()))
+		if err != nil {
+			continue // a journal may vanish between listing and reading
+		}
+		if err := os.WriteFile(filepath.Join(dst, e.Name()), b, 0o644); err != nil {
+			panic("harness: crash image: " + err.Error())
+		}
+	}
+	s.image = dst
+	s.Stats["crash.image"]++
+}
+
 func (s *Sim) doCrash() {
 	// everything in memory is gone; only the database file survives
 	s.alive = false
@@ -1049,9 +1114,24 @@ func (s *Sim) doCrash() {
 			r.Lost = true
 		}
 	}
+	// the process is killed: what survives is the set of files as they are at that instant
+	// (journal or write-ahead log included), not what a clean close would have made of them
+	if s.image == "" {
+		s.takeImage()
+	}
 	if s.db != nil {
 		_ = s.db.Close()
 		s.db = nil
+	}
+	if s.obs != nil {
+		_ = s.obs.Close()
+		s.obs = nil
+	}
+	if s.image != "" {
+		old := filepath.Dir(s.Path)
+		s.Path = filepath.Join(s.image, filepath.Base(s.Path))
+		s.image = ""
+		_ = os.RemoveAll(old)
 	}
 	s.sys, s.api, s.aio, s.store, s.router, s.sender, s.shells = nil, nil, nil, nil, nil, nil, nil
 	s.rules.onCrash()
